@@ -86,4 +86,40 @@ def recompose (t : Ref) : Str :=
   (match t.query with | some q => '?' :: q | none => []) ++
   (match t.fragment with | some f => '#' :: f | none => [])
 
+/-! ### Appendix B: parsing a URI reference into its five components
+
+    `^(([^:/?#]+):)?(//([^/?#]*))?([^?#]*)(\?([^#]*))?(#(.*))?`   ($2 scheme, $4 authority, $5 path, $7 query,
+    $9 fragment; a group that does not take part in the match is "undefined" = `none`) -/
+
+def notIn (ds : List Char) (c : Char) : Bool := !(ds.contains c)
+
+/-- `(([^:/?#]+):)?` : (scheme, rest) -/
+def parseScheme (t : Str) : Option Str × Str :=
+  let pre := t.takeWhile (notIn [':', '/', '?', '#'])
+  match t.dropWhile (notIn [':', '/', '?', '#']) with
+  | ':' :: rest => if pre ≠ [] then (some pre, rest) else (none, t)
+  | _ => (none, t)
+
+/-- `(//([^/?#]*))?` : (authority, rest) -/
+def parseAuthority : Str → Option Str × Str
+  | '/' :: '/' :: r => (some (r.takeWhile (notIn ['/', '?', '#'])), r.dropWhile (notIn ['/', '?', '#']))
+  | t => (none, t)
+
+/-- `(\?([^#]*))?` : (query, rest) -/
+def parseQueryPart : Str → Option Str × Str
+  | '?' :: r => (some (r.takeWhile (notIn ['#'])), r.dropWhile (notIn ['#']))
+  | t => (none, t)
+
+/-- `(#(.*))?` -/
+def parseFragmentPart : Str → Option Str
+  | '#' :: r => some r
+  | _ => none
+
+def rfcParse (t : Str) : Ref :=
+  let (scheme, r1) := parseScheme t
+  let (authority, r2) := parseAuthority r1
+  let path := r2.takeWhile (notIn ['?', '#'])
+  let (query, r4) := parseQueryPart (r2.dropWhile (notIn ['?', '#']))
+  { scheme := scheme, authority := authority, path := path, query := query, fragment := parseFragmentPart r4 }
+
 end C07
